@@ -138,9 +138,9 @@ def assoc {α} (k : Bytes) : List (Bytes × α) → Option α
 
 /-- utils.IsBasic -/
 def isBasicName (n : Bytes) : Bool :=
-  n = VL.ofAscii "i8" || n = VL.ofAscii "i16" || n = VL.ofAscii "i32" || n = VL.ofAscii "i64" ||
-  n = VL.ofAscii "double" || n = VL.ofAscii "string" || n = VL.ofAscii "byte" ||
-  n = VL.ofAscii "binary" || n = VL.ofAscii "bool"
+  n = [105, 56] /-i8-/ || n = [105, 49, 54] /-i16-/ || n = [105, 51, 50] /-i32-/ || n = [105, 54, 52] /-i64-/ ||
+  n = [100, 111, 117, 98, 108, 101] /-double-/ || n = [115, 116, 114, 105, 110, 103] /-string-/ || n = [98, 121, 116, 101] /-byte-/ ||
+  n = [98, 105, 110, 97, 114, 121] /-binary-/ || n = [98, 111, 111, 108] /-bool-/
 
 /-- a name with a '.' is looked up through `Includes`; the harness registers single files, so
 such a name resolves to nothing -/
@@ -189,8 +189,8 @@ def Ft.ofCode : Nat → Ft
   | 1 => .scalar | 2 => .list | 3 => .struct | 4 => .strMap | 5 => .intMap | _ => .invalid
 
 def isIntKeyName (n : Bytes) : Bool :=
-  n = VL.ofAscii "i8" || n = VL.ofAscii "i16" || n = VL.ofAscii "i32" || n = VL.ofAscii "i64" || n = VL.ofAscii "byte"
-def isStrKeyName (n : Bytes) : Bool := n = VL.ofAscii "string" || n = VL.ofAscii "binary"
+  n = [105, 56] /-i8-/ || n = [105, 49, 54] /-i16-/ || n = [105, 51, 50] /-i32-/ || n = [105, 54, 52] /-i64-/ || n = [98, 121, 116, 101] /-byte-/
+def isStrKeyName (n : Bytes) : Bool := n = [115, 116, 114, 105, 110, 103] /-string-/ || n = [98, 105, 110, 97, 114, 121] /-binary-/
 
 /-- utils.go switchFt; `none` = typedef cycle (the Go code would not return) -/
 def Schema.switchFt (s : Schema) (t : Ty) : Option Ft :=
